@@ -697,7 +697,11 @@ static void run_case(uint64_t idx)
 	const filt *F = &FILT[f];
 	bool null_options = false;
 	uint32_t param;
-	if (f == F_DELTA) param = vrng_chance(&r, 1, 2) ? 1 + (uint32_t)((idx / F_COUNT) % 256) : 1 + vrng_below(&r, 256);
+	if (f == F_DELTA) {
+		param = vrng_chance(&r, 1, 2) ? 1 + (uint32_t)((idx / F_COUNT) % 256) : 1 + vrng_below(&r, 256);
+		unsigned edge = vrng_below(&r, 16);     // the two ends of the distance range more often
+		if (edge == 0) param = 256; else if (edge == 1) param = 1; else if (edge == 2) param = 255;
+	}
 	else param = pick_offset(&r, F->align, &null_options);
 	size_t n = pick_size(&r);
 	vbuf x = {0};
@@ -904,6 +908,60 @@ static void run_case(uint64_t idx)
 			}
 		}
 		hx_count("misaligned_refused", 2);
+	}
+
+	// ---- position in the chain: the filter under test behind or in front of another filter (the coders take
+	// different paths when they are not the outermost one: in-place transformation of the neighbour's output) ----
+	if (!bad && vrng_chance(&r, 1, 3)) {
+		lzma_options_delta pd2 = { .type = LZMA_DELTA_TYPE_BYTE, .dist = 1 + vrng_below(&r, 256) };
+		lzma_options_bcj pb2 = { .start_offset = 0 };
+		bool partner_is_x86 = f == F_DELTA && vrng_chance(&r, 1, 2);
+		lzma_filter partner = { partner_is_x86 ? LZMA_FILTER_X86 : LZMA_FILTER_DELTA, partner_is_x86 ? (void *)&pb2 : (void *)&pd2 };
+		bool under_test_second = vrng_chance(&r, 2, 3);
+		lzma_filter ch[4];
+		ch[0] = under_test_second ? partner : c.with[0];
+		ch[1] = under_test_second ? c.with[0] : partner;
+		ch[2] = c.with[1]; ch[3].id = LZMA_VLI_UNKNOWN; ch[3].options = NULL;
+		// expected filtered bytes: the references applied in chain order
+		vbuf ex = {0}; vbuf_append(&ex, x.p, n); if (n == 0) vbuf_reserve(&ex, 1);
+		for (int k = 0; k < 2; ++k) {
+			bool is_partner = (k == 0) == under_test_second;
+			if (is_partner) { if (partner_is_x86) ref_bcj(0x04, true, 0, ex.p, n); else ref_delta(true, pd2.dist, ex.p, n); }
+			else { if (f == F_DELTA) ref_delta(true, param, ex.p, n); else ref_bcj(F->id, true, param, ex.p, n); }
+		}
+		lzma_stream e3 = LZMA_STREAM_INIT, u3 = LZMA_STREAM_INIT, d3 = LZMA_STREAM_INIT;
+		vbuf c3 = {0}, f3 = {0}, r3 = {0}; slice_result sr;
+		const char *posn = under_test_second ? "second" : "first-of-three";
+		if (lzma_raw_encoder(&e3, ch) != LZMA_OK) { VIOL("bcj-coder-failed|%s|enc|chain3-init", F->name); hx_violation(PROP, key, idx, "raw encoder init with a three-filter chain (%s %s, partner %s)", F->name, posn, partner_is_x86 ? "x86" : "delta"); }
+		else {
+			slice_plan p3 = pe; p3.final_action = LZMA_FINISH;
+			slicer_run(&e3, x.p, n, &c3, &p3, &sr);
+			if (sr.ret != LZMA_STREAM_END || sr.protocol_violation) { VIOL("bcj-coder-failed|%s|enc|chain3", F->name); hx_violation(PROP, key, idx, "three-filter chain encoder ended with %s %s", lzma_ret_name(sr.ret), sr.why); }
+			else if (lzma_raw_decoder(&u3, c.without) == LZMA_OK && lzma_raw_decoder(&d3, ch) == LZMA_OK) {
+				slice_plan pw = PLAN_WHOLE;
+				slicer_run(&u3, c3.p, c3.n, &f3, &pw, &sr);
+				hx_eval();
+				if (f3.n != n || (n && memcmp(f3.p, ex.p, n))) {
+					size_t at = f3.n == n ? first_diff(f3.p, ex.p, n) : 0;
+					if (f == F_DELTA) VIOL("delta-ref-mismatch|%s", "enc|chain-position"); else VIOL("bcj-ref-mismatch|%s|enc|chain-position", F->name);
+					if (f3.n == n) describe_diff(diff, sizeof(diff), x.p, f3.p, ex.p, n, at); else snprintf(diff, sizeof(diff), "%zu bytes instead of %zu", f3.n, n);
+					hx_violation(PROP, key, idx, "%s (%s=%u) as the %s filter of a chain with %s(%u): filtered bytes differ from the composed reference transforms: %s",
+							F->name, f == F_DELTA ? "dist" : "start_offset", param, posn, partner_is_x86 ? "x86" : "delta", partner_is_x86 ? 0 : pd2.dist, diff);
+				}
+				slice_plan pr3 = pr; pr3.final_action = LZMA_FINISH;
+				slicer_run(&d3, c3.p, c3.n, &r3, &pr3, &sr);
+				hx_eval();
+				if (sr.ret != LZMA_STREAM_END || r3.n != n || (n && memcmp(r3.p, x.p, n))) {
+					VIOL("bcj-roundtrip|%s|chain-position", F->name);
+					hx_violation(PROP, key, idx, "decode(encode(x)) != x with %s (%s=%u) as the %s filter of a chain with %s(%u): status %s, %zu of %zu bytes",
+							F->name, f == F_DELTA ? "dist" : "start_offset", param, posn, partner_is_x86 ? "x86" : "delta", partner_is_x86 ? 0 : pd2.dist, lzma_ret_name(sr.ret), r3.n, n);
+				}
+				hx_count(under_test_second ? "chain_position_second" : "chain_position_first_of_three", 1);
+				if (f == F_DELTA && param == 256 && under_test_second) hx_count("delta_dist_256_not_first", 1);
+			}
+		}
+		lzma_end(&e3); lzma_end(&u3); lzma_end(&d3);
+		vbuf_free(&c3); vbuf_free(&f3); vbuf_free(&r3); vbuf_free(&ex);
 	}
 
 	if (!bad) {
